@@ -90,6 +90,21 @@ def nontrivial(prop, op, ans):
 
 
 PROPS = {
+    "C12": {
+        "lean_targets": ["H2V.Props.C12"],
+        "theorems": [
+            ("H2V.Props.C12", "H2V.Props.C12.head_roundtrip"),
+        ],
+        "profiles": [
+            {"name": "codecread", "quick": 250, "thorough": 3000, "shards": {"quick": 1, "thorough": 6}},
+            {"name": "codecwrite", "quick": 60, "thorough": 600, "shards": {"quick": 1, "thorough": 6}},
+        ],
+        "relations": {"spec_rd_all": rel_equal},
+        "history_starts": ("rd_new", "wr_new"),
+        "partial": "tokio-util LengthDelimitedCodec and BytesMut growth are modelled, not verified",
+        "assumptions": ["tokio-util length-delimited reassembler modelled (H2V/Model/CodecRead.lean Reader.drain)",
+                        "BytesMut capacity growth modelled by Vec doubling (only has_capacity depends on it)"],
+    },
     "C10": {
         "lean_targets": ["H2V.Props.C10"],
         "theorems": [
@@ -113,6 +128,13 @@ PROPS = {
             ("H2V.Props.C11", "H2V.Props.C11.huffman_roundtrip"),
             ("H2V.Props.C11", "H2V.Props.C11.huffman_encode_is_canonical"),
             ("H2V.Props.C11", "H2V.Props.C11.huffman_leaf_progress"),
+            ("H2V.Props.C11", "H2V.Props.C11.decode_sound"),
+            ("H2V.Props.C11", "H2V.Props.C11.rfc_error_rejected"),
+            ("H2V.Props.C11", "H2V.Props.C11.split_invariance"),
+            ("H2V.Props.C11", "H2V.Props.C11.table_within_limit"),
+            ("H2V.Props.C11", "H2V.Props.C11.decode_never_panics"),
+            ("H2V.Props.C11", "H2V.Props.C11.int_sound_and_bounded"),
+            ("H2V.Props.C11", "H2V.Props.C11.int_roundtrip"),
         ],
         "profiles": [
             {"name": "huffman", "quick": 1500, "thorough": 40000},
